@@ -10,6 +10,11 @@ def isIdentString (s : String) : Bool :=
   | [] => false
   | c :: r => (c.isAlpha || c == '_') && r.all (fun d => d.isAlphanum || d == '_')
 
+/-- a spelling that the lexer model reads as one integer literal -/
+def isIntSpelling (s : String) : Bool :=
+  s.length ≤ 24 && (match s.toList with | c :: _ => c.isDigit | [] => false) && s.toList.all Char.isAlphanum &&
+    (lexOne s).any isIntLiteral
+
 def parseTok (s : String) : Option Tok :=
   if s == "~" then some .ws
   else if s == "/**/" then some .ws
@@ -18,8 +23,10 @@ def parseTok (s : String) : Option Tok :=
   else if s == "," then some .comma
   else if s == "##" then some .hashhash
   else if ["+", "-", "*", ";", "=", "{", "}"].contains s then some (.punct s)
-  else if isDigitString s then some (.int s)
-  else if isIdentString s then some (.id s)
+  else if isDigitString s && !(s.length > 1 && s.startsWith "0") && s.length ≤ 18 then some (.int s)
+  else if isIdentString s then (if RsslVerif.Gen.MacroTables.keywords.contains s then none else some (.id s))
+  -- an integer literal in another spelling (hex, octal, leading zeros, suffixes): kept by spelling
+  else if isIntSpelling s then some (.int s)
   else none
 
 def parseToks (s : String) : Option (List Tok) :=
@@ -76,8 +83,18 @@ def consistent : List (String × String × List Line) → Bool
   | [] => true
   | (_, real, lines) :: r => r.all (fun f => f.2.1 != real || f.2.2 == lines) && consistent r
 
+/-- the observation form of an integer literal: kind and VALUE, as the lexer model reads the spelling -/
+def showInt (s : String) : String :=
+  match lexOne s with
+  | some (.litInt v) => toString v
+  | some (.litIntU32 v) => "?LiteralIntUnsigned32(" ++ toString v ++ ")"
+  | some (.litIntU64 v) => "?LiteralIntUnsigned64(" ++ toString v ++ ")"
+  | some (.litIntS64 v) => "?LiteralIntSigned64(" ++ toString v ++ ")"
+  | _ => "?not-an-integer-literal(" ++ s ++ ")"
+
 def showTok : Tok → String
-  | .id s | .int s | .punct s => s
+  | .int s => showInt s
+  | .id s | .punct s => s
   | .lparen => "("
   | .rparen => ")"
   | .comma => ","
@@ -224,16 +241,16 @@ def handle (op : String) (args : List String) : String :=
   | "C12.run", api :: files =>
     match parseApi api, sequenceOpt (files.map parseFile) with
     | some api, some files => run api files
-    | _, _ => "bad-request"
+    | _, _ => "unsupported token outside the model (float literal, keyword, string literal, another operator) or malformed request"
   | "C12.hof", api :: files =>
     -- the same program semantics as `C12.run`; the harness judges these requests strictly (no known deviation accepted)
     match parseApi api, sequenceOpt (files.map parseFile) with
     | some api, some files => run api files
-    | _, _ => "bad-request"
+    | _, _ => "unsupported token outside the model (float literal, keyword, string literal, another operator) or malformed request"
   | "C12.tame", api :: files =>
     match parseApi api, sequenceOpt (files.map parseFile) with
     | some api, some files => classify api files
-    | _, _ => "bad-request"
+    | _, _ => "not-tame"
   | "C12.limit", _ => "unsupported (resource test on the real code only)"
   | _, _ => "unsupported-op"
 
